@@ -199,6 +199,36 @@ def gen_geo_case(rnd, want_auto=None, argtypes=True, coordapi=True):
             break
     else:
         lon, zone = 0.0, 0 if prj != 'isg' else 541
+    if rnd.random() < 0.06:
+        # a position whose intermediate TM ordinate xi' sits at (or a millimetre to kilometres from) a zero of one of the
+        # series' trigonometric factors: placed with the oracle's inverse at the present longitude difference
+        a_e, invf_e = ell_published(ell)
+        cm0 = central_meridian(prj, zone) if zone != 0 else None
+        if cm0 is None:
+            cov = [c for c in zone_coverage(prj) if c[0] <= lon < c[1]]
+            if cov:
+                cm0 = cov[0][0] + (math.floor((lon - cov[0][0]) / zw) + 0.5) * zw
+        if cm0 is not None:
+            dl0 = core.wrap180(lon - cm0)
+            try:
+                if rnd.random() < 0.5:
+                    # the final ordinate xi = y / (k0 A) on a zero (the inverse series' argument)
+                    y = series_zero_y(rnd, a_e, invf_e, k0) * rnd.choice([1, -1])
+                    x0 = tm.forward(math.degrees(y / 6.4e6), dl0, a_e, invf_e, k0)[0]
+                    la_z, dl_z, _, _ = tm.inverse(x0, y, a_e, invf_e, k0)
+                else:
+                    # the Gauss-Schreiber ordinate xi' on a zero (the forward series' and the scale / convergence series' argument),
+                    # a hair to a milliradian off
+                    j, d = rnd.choice(SERIES_ZERO_FRACTIONS)
+                    xi1 = (math.pi * j / d / (2.0 if rnd.random() < 0.5 else 1.0)) % (math.pi / 2)
+                    xi1 = (xi1 + rnd.choice([0.0, 1, -1, 1, -1]) * 10 ** rnd.uniform(-10, -3)) * rnd.choice([1, -1])
+                    eta1 = math.asinh(math.tan(math.radians(dl0)) * math.cos(xi1))
+                    la_z, dl_z = geo_from_gauss_schreiber(xi1, eta1, invf_e)
+                lon_z = core.wrap180(cm0 + dl_z)
+                if -80.0 <= la_z <= 84.0 and abs(dl_z - dl0) < 0.5 and -180.0 <= lon_z < 180.0:
+                    lat, lon, kind = la_z, lon_z, 'series-zero'
+            except (ValueError, OverflowError, ZeroDivisionError):
+                pass
     argt = 'float'
     if argtypes and rnd.random() < 0.3:
         argt = rnd.choice(ax.ANGLE_CLASSES)
@@ -235,6 +265,46 @@ def gen_geo_case(rnd, want_auto=None, argtypes=True, coordapi=True):
     return case
 
 
+def rectifying_radius(a, invf):
+    """Radius of the sphere with the meridian length of the ellipsoid (series in the third flattening to n^8; used only to PLACE
+    workload points, never to judge)."""
+    f = 1.0 / invf
+    n = f / (2.0 - f)
+    n2 = n * n
+    return a / (1.0 + n) * (1.0 + n2 / 4.0 + n2 * n2 / 64.0 + n2 ** 3 / 256.0 + 25.0 * n2 ** 4 / 16384.0)
+
+
+SERIES_ZERO_FRACTIONS = sorted({(j, 2 * r) for r in range(1, 9) for j in range(1, r)} | {(j, 16) for j in range(1, 8)},
+                               key=lambda jr: jr[0] / jr[1])
+
+
+def series_zero_y(rnd, a, invf, k0):
+    """A distance from the equator along the central meridian at which one of the trigonometric factors sin(2r xi), cos(2r xi)
+    of the Krueger series (r = 1..8) vanishes - xi = j pi / (4 r) - plus an offset from a millimetre to a few kilometres.  A
+    series that is cut short "when the term is small" is cut there by the vanishing factor, not by the coefficient."""
+    j, d = rnd.choice(SERIES_ZERO_FRACTIONS)
+    xi = math.pi * j / d / 2.0 if rnd.random() < 0.5 else math.pi * j / d
+    xi = xi % (math.pi / 2)
+    off = rnd.choice([0.0, 1, -1, 1, -1]) * 10 ** rnd.uniform(-3, 3.6)
+    return k0 * rectifying_radius(a, invf) * xi + off
+
+
+def geo_from_gauss_schreiber(xi1, eta1, invf):
+    """Latitude and longitude difference (degrees) of the point whose Gauss-Schreiber coordinates - the arguments of the forward
+    Krueger series - are (xi', eta').  Used only to PLACE workload points on the zeros of the series' factors."""
+    f = 1.0 / invf
+    e = math.sqrt(f * (2.0 - f))
+    tp = math.sin(xi1) / math.sqrt(math.sinh(eta1) ** 2 + math.cos(xi1) ** 2)
+    lam = math.atan2(math.sinh(eta1), math.cos(xi1))
+    t = tp
+    for _ in range(8):
+        sg = math.sinh(e * math.atanh(e * t / math.sqrt(1.0 + t * t)))
+        g = t * math.sqrt(1.0 + sg * sg) - sg * math.sqrt(1.0 + t * t) - tp
+        dg = (math.sqrt(1.0 + sg * sg) * math.sqrt(1.0 + t * t) - sg * t) * (1.0 - e * e) * math.sqrt(1.0 + t * t) / (1.0 + (1.0 - e * e) * t * t)
+        t -= g / dg
+    return math.degrees(math.atan(t)), math.degrees(lam)
+
+
 def gen_grid_case(rnd, ns=None):
     """A grid coordinate drawn directly on a lattice (mm lattice; a share on whole metres / 100 km)."""
     ell = rand_ell(rnd)
@@ -261,6 +331,12 @@ def gen_grid_case(rnd, ns=None):
         q = rnd.choice([0.0001, 0.001, 1.0, 1000.0])
         east = round(round(east / q) * q, 4)
         north = round(round(north / q) * q, 4)
+    elif r < 0.63:
+        kind = 'series-zero'
+        a_, b_ = rnd.choice(DL_BINS)
+        y = series_zero_y(rnd, a, invf, k0)
+        east = round(fe + rnd.choice([1, -1]) * rnd.uniform(a_, b_) * 111000.0 * k0 * math.cos(min(y / 6.4e6, 1.4)), 4)
+        north = round(y if hemi.lower() == 'north' else fn - y, 4)
     elif r < 0.9:
         east = round(rnd.uniform(-2830000.0, 3830000.0), rnd.choice([0, 3, 4]))
         north = round(rnd.uniform(0.0, 10000000.0), rnd.choice([0, 3, 4]))
@@ -685,7 +761,7 @@ def judge_grid(ns, ctx, case, aspects):
             try:
                 la_s, lo_s = sa.grid2geo(zone, east, north)
                 ctx.count('standalone')
-                d = max(abs(la_s - lat), abs(lo_s - lon))
+                d = max(abs(la_s - lat), abs(core.wrap180(lo_s - lon)))       # the same meridian, however it is numbered
                 if not ctx.ratio('C02.standalone', d, 1e-10):
                     ctx.violation('standalone-differs', case, {'standalone': [la_s, lo_s], 'library': [lat, lon]})
             except Exception as e:
@@ -900,7 +976,7 @@ def run_standalone_rows(ns, ctx, rows4):
         if not ok:
             ctx.violation('standalone-batch-output-malformed', rc, {'row_out': o, 'expected_id': r[0]})
             continue
-        dlat, dlon = abs(vals[0] - r[4]), abs(vals[1] - r[5])
+        dlat, dlon = abs(vals[0] - r[4]), abs(core.wrap180(vals[1] - r[5]))
         if not ctx.ratio('C02.standalone-batch', max(dlat, dlon), 1e-10 + 3e-13):
             ctx.violation('standalone-batch-differs', rc, {'batch_output_hp': o[1:3], 'denotes_deg': vals, 'library': [r[4], r[5]]})
 
